@@ -204,7 +204,11 @@ pub fn gen_descriptor(c: &mut Ctl) -> (PublicKeyCredentialDescriptor, V) {
         let n = len_pick(c.rng, 255, c.small);
         crate::schema::gen_bytes_content(c.rng, n)
     };
-    let mut ty = if c.rng.chance(3, 4) { "public-key".to_string() } else { text_pick(c.rng, 32, true) };
+    let mut ty = match c.rng.below(8) {
+        0 => text_pick(c.rng, 32, true),
+        1 => crate::schema::identifier_variant(c.rng, "public-key"),
+        _ => "public-key".to_string(),
+    };
     let d = PublicKeyCredentialDescriptor {
         id: hb(&mut id),
         key_type: hs(&mut ty),
